@@ -2300,6 +2300,14 @@ vbi_decode_teletext(vbi_decoder *vbi, uint8_t *buffer)
 			}
 
 			vtp->function = PAGE_FUNCTION_DISCARD;
+
+			if (curr != rvtp) {
+				/* Serial mode: this header also terminates
+				   the page still open in its own magazine. */
+				vbi->vt.current = rvtp;
+				continue;
+			}
+
 			break;
 		}
 
